@@ -120,6 +120,9 @@ package api
 //@   modifies ctx
 //@   ensures[method] !isget(ctx) ==> respstatus(ctx) == 405
 //@   ensures[ok] isget(ctx) ==> respstatus(ctx) == 200
+//@   ensures[count] isget(ctx) ==> jarrlen(respbody(ctx), "suites") == 45
+//@   ensures[sound] isget(ctx) ==> forall k :: 0 <= k && k < 45 ==> maphas(knownSuites, jarrstr(respbody(ctx), "suites", k))
+//@   ensures[complete] isget(ctx) ==> forall s: seq :: maphas(knownSuites, s) ==> exists k :: 0 <= k && k < 45 && jarrstr(respbody(ctx), "suites", k) == s
 //@   ensures[once] respnbody(ctx) == 1
 
 //@ func api.ocraSuiteConfig$1(ctx)
